@@ -218,6 +218,10 @@ func (c *channel) Close(err error) {
 		}
 
 		c.closeErr = err
+		if nil == c.closeErr {
+			// writes on a closed channel must fail even when Close was given no error
+			c.closeErr = net.ErrClosed
+		}
 		c.transport.Close()
 		c.cancel()
 
